@@ -36,7 +36,7 @@
      harness's EitherFut checks and registers in four small sections; a fire in between makes it wake itself, which is the same
      as being registered and fired): the waker left with the event that fires second is a stale waker of a possibly FINISHED
      operation (e.g. the WakeThread waker of a sync caller that has returned).
-   * ORDER FACTS: four of the hand-written order decisions are a parameter ([ffacts], [stepF], below [would_panic]); [step] is
+   * ORDER FACTS: five of the hand-written order decisions are a parameter ([ffacts], [stepF], below [would_panic]); [step] is
      the model with the code's facts.
    * thread::park returns only with the unpark token ([FPark], [FROpark]); spurious returns (allowed by std, produced by the
      controlled runtime) are not modelled: in run_one_job_now they only re-read the state, which matters only after a stale
@@ -44,7 +44,14 @@
    * ABSTRACTED: the pool ([FPIdle] may take a schedule entry whenever insched > 0; L1 proves the hand-over); schedule_thread;
      private result mutex / condvar of sync (the waiter of sync_background is blocked in [FSBwait] until its job has been run or
      reschedule_queue has set its `rescheduled` flag [kicked]; wake_blocked itself is not a model datum: [kickall]).
-   * OMITTED: the signaller's Drop (Canceled) - a queued job is never dropped here; future_sync; try_sync; several queues;
+   * future_sync ([OFutSync], frames [FY pc y st u], job prims PSendReady / PAwaitDone): the two oneshot channels of a call are two
+     fresh cells of [evs] (r = queue_ready, S r = done; send and sender-drop both = fired, a oneshot receiver keeps only its
+     newest waker); the slot job is the script [PSendReady r; PAwaitDone (S r); PSignal f] pushed by schedule_job_desync; the
+     owner's polls follow SyncFuture::poll (WaitingForQueue: scheduler_future.poll_unpin = the frames of SchedulerFuture::poll /
+     drain_queue, then recv.poll_unpin; WaitingForFuture: the user future, one primitive per step; then task_finished.send and
+     WaitingForScheduler = the frames of a plain SchedulerFuture [FUse f u]); the drop follows the field order (order fact
+     f_syncfuture_state_dropped_first).  Not modelled: the Err(Canceled) arms (the queue is never dropped here) and the value.
+   * OMITTED: the signaller's Drop (Canceled) - a queued job is never dropped here; try_sync; several queues;
      nested operations; debug_assert!() critical sections (read-only core lock sections in debug builds have no model step).
    * [step_label] of [FPIdle] is the schedule lock (the queue-core lock is nested inside it: next_to_run examines one entry per
      step); [FSFpoll] is the result lock (core nested). *)
@@ -67,13 +74,24 @@ Record ftables := {
 Inductive waker := WQueue | WThread (c : nat) | WDrain (d : nat) | WTask (c : nat) | WDouble (k : nat).
 (* PAwaitEither e1 e2: select-style await, ready when either event has fired; while pending the waker is registered with BOTH
    events, so the event that fires second calls a stale waker (possibly long after the operation has finished) *)
-Inductive fprim := PAwait (e : nat) | PSignal (f : nat) | PTouch | PAwaitEither (e1 e2 : nat).
+(* PSendReady r / PAwaitDone d: the two oneshot operations of the slot job of future_sync (`queue_ready_send.send(()).ok()`,
+   `done_recv.await.ok()`); the oneshot cells live in [evs] next to the external events (sent / sender dropped = fired) *)
+Inductive fprim := PAwait (e : nat) | PSignal (f : nat) | PTouch | PAwaitEither (e1 e2 : nat) | PSendReady (r : nat) | PAwaitDone (d : nat).
 Inductive jstate := NotCreated | Waiting.
 (* JSync: the job pushed by sync_drain / sync_background of caller c; tk = Some f for SchedulerFuture::sync() (closure = take f) *)
 Inductive job := JPlain (op : nat) | JFut (op : nat) (st : jstate) (script : list fprim) | JSync (op c : nat) (tk : option nat).
 
 Inductive fuse := UDetach | UAwait | USync | UDropAfter (k : nat).
-Inductive cop := ODesync | OFuture (body : list fprim) (u : fuse) | OSuspend (e_resume : nat) (u : fuse) | OSync | OFire (e : nat).
+(* OFutSync body u: future_sync; body = the user future (PTouch / PAwait e / PAwaitEither only), polled on the caller's task;
+   u = UAwait (poll until Ready) | UDropAfter n (poll n times, then drop the SyncFuture); any other use drops it at once *)
+Inductive cop := ODesync | OFuture (body : list fprim) (u : fuse) | OSuspend (e_resume : nat) (u : fuse) | OSync | OFire (e : nat)
+               | OFutSync (body : list fprim) (u : fuse).
+(* SyncFuture: its state (WaitingForQueue with the closure / WaitingForFuture with the rest of the user future; in
+   WaitingForScheduler it behaves exactly like its SchedulerFuture and is represented by [FUse f u]), the program points of SyncFuture::poll and of the poll loop of its owner, and its identity: the op id of
+   the slot job, the SchedulerFuture, the queue_ready cell (the done cell is the next one) *)
+Inductive ystate := YQueue (body : list fprim) | YFuture (rest : list fprim).
+Inductive ypc := YPuse | YPpark | YPloop | YPsfret | YPrecv | YPuser | YPfin | YPpend | YPdrop1 | YPdrop2.
+Record ydat := { y_op : nat; y_f : nat; y_r : nat }.
 
 Inductive fres := FNone | FSome (v : nat) | FReturned.
 Record evcell := { fired : bool; wakers : list waker }.
@@ -119,9 +137,15 @@ Inductive frame :=
 (* only in the variant order "requeue after wake_with" of [stepF] (fact f_requeue_before_park false): the late requeue *)
 | FDQlate (j : job)
 (* sync_background: the waiter's attempt to take the queue over itself (claim_pending_queue) *)
-| FSBclaim.
+| FSBclaim
+(* future_sync: the SyncFuture held by its owner task *)
+| FY (pc : ypc) (y : ydat) (st : ystate) (u : fuse).
 
-Inductive gev := GPush (o : nat) | GStart (o : nat) | GFinish (o : nat) | GSig (f v : nat) | GResolve (f v : nat).
+(* GYnew o f r: future_sync created slot job o, SchedulerFuture f, oneshot cells r (queue_ready) and S r (done);
+   GUStart / GUStep / GUFinish / GUCancel o: the user future of that call is created / polled one primitive further / completes /
+   is destroyed unfinished; GYdrop o: the SyncFuture is dropped before it returned Ready *)
+Inductive gev := GPush (o : nat) | GStart (o : nat) | GFinish (o : nat) | GSig (f v : nat) | GResolve (f v : nat)
+               | GYnew (o f r : nat) | GUStart (o : nat) | GUStep (o : nat) | GUFinish (o : nat) | GUCancel (o : nat) | GYdrop (o : nat).
 
 (* kicked = the `rescheduled` flag of a sync_background waiter (set by every reschedule_queue while the waiter is registered) *)
 Record arec := { stack : list frame; token : bool; sres : bool; kicked : bool }.
@@ -176,8 +200,11 @@ Definition take_f (s : state) (f : nat) : option (state * option nat) :=
 
 (* a poll of a SchedulerFuture that is going to return Ready ends the caller's await / poll-and-drop loop: the continuation
    frame (which would only be popped on Ready) is removed at the step that takes the result *)
+(* a oneshot keeps only the newest waker: the previous context waker of the slot job is replaced (task wakers, which no well-formed
+   program registers with a done cell, are left alone) *)
+Definition is_anytask (w : waker) : bool := match w with WTask _ => true | _ => false end.
 Definition pop_cont (rest : list frame) : list frame :=
-  match rest with FAwRet _ :: r | FDropRet _ _ :: r => r | _ => rest end.
+  match rest with FAwRet _ :: r | FDropRet _ _ :: r | FY YPsfret _ _ _ :: r => r | _ => rest end.
 Definition wake_frames (ws : list waker) : list frame := FWake <$> ws.
 Definition opt_wake (ow : option waker) : list frame := match ow with Some w => [FWake w] | None => [] end.
 
@@ -217,6 +244,13 @@ Definition step_job (s : state) (a : nat) (rest : list frame) (j : job) (w : wak
       if (getev s e1).(fired) || (getev s e2).(fired) then Some (setstack s a (FJob (JFut op Waiting r) w k :: rest))
       else let s1 := setev s e1 (getev s e1 <| wakers := w :: (getev s e1).(wakers) |>) in
            Some (setstack (setev s1 e2 (getev s1 e2 <| wakers := w :: (getev s1 e2).(wakers) |>)) a (ret_pending k j :: rest))
+  | JFut op Waiting (PSendReady e :: r) =>        (* [ev e] queue_ready_send.send(()): the receiver's waker is taken and called *)
+      let c := getev s e in
+      Some (setstack (setev s e {| fired := true; wakers := [] |}) a (wake_frames (rev c.(wakers)) ++ FJob (JFut op Waiting r) w k :: rest))
+  | JFut op Waiting (PAwaitDone e :: r) =>        (* [ev e] one poll of done_recv: a oneshot keeps only the NEWEST waker *)
+      let c := getev s e in
+      if c.(fired) then Some (setstack s a (FJob (JFut op Waiting r) w k :: rest))
+      else Some (setstack (setev s e (c <| wakers := w :: List.filter is_anytask c.(wakers) |>)) a (ret_pending k j :: rest))
   | JFut op Waiting (PSignal f :: r) =>
       let c := getf s f in
       let s1 := addlog (setf s f {| res := FSome op; fwaker := None |}) [GSig f op] in
@@ -397,6 +431,71 @@ Definition step_pool (T : ftables) (s : state) (a : nat) (rest : list frame) (fr
   | _ => None
   end.
 
+(* ---------- SyncFuture (future_sync): the owner's poll loop, SyncFuture::poll, the user future, the drop ---------- *)
+Definition is_task (a : nat) (w : waker) : bool := match w with WTask c => Nat.eqb c a | _ => false end.
+Definition fire_cell (s : state) (a : nat) (e : nat) (k : list frame) : state :=
+  setstack (setev s e {| fired := true; wakers := [] |}) a (wake_frames (rev (getev s e).(wakers)) ++ k).
+Definition step_y (s : state) (a : nat) (tok : bool) (rest : list frame) (pc : ypc) (y : ydat) (st : ystate) (u : fuse) : option state :=
+  let goto s' pc' st' u' := Some (setstack s' a (FY pc' y st' u' :: rest)) in
+  let o := y.(y_op) in let r := y.(y_r) in let d := S y.(y_r) in
+  match pc with
+  | YPuse =>                                          (* the owner: poll (again), or drop *)
+      match u with
+      | UAwait | UDropAfter (S _) => goto s YPloop st u
+      | _ => goto s YPdrop1 st u
+      end
+  | YPpend =>                                         (* the poll returned Pending *)
+      match u with
+      | UAwait => goto s YPpark st u
+      | UDropAfter (S k) => goto s YPuse st (UDropAfter k)
+      | _ => goto s YPdrop1 st u
+      end
+  | YPpark => if tok then goto (settoken s a false) YPloop st u else None        (* the task is polled again when it has been woken *)
+  | YPloop =>                                         (* the `loop` of SyncFuture::poll: dispatch on the state *)
+      match st with
+      | YFuture _ => goto s YPuser st u
+      | YQueue _ => Some (setstack s a (FSFpoll y.(y_f) :: FY YPsfret y st u :: rest))   (* scheduler_future.poll_unpin first *)
+      end
+  | YPsfret =>                                        (* reached only when that poll returned Pending (Ready: [pop_cont]) *)
+      match st with
+      | YQueue _ => goto s YPrecv st u
+      | YFuture _ => goto s YPuser st u                (* not reached *)
+      end
+  | YPrecv =>                                         (* [ev r] recv.poll_unpin; Ok: create_future(), retry *)
+      match st with
+      | YQueue body =>
+          let c := getev s r in
+          if c.(fired) then goto (addlog s [GUStart o]) YPuser (YFuture body) u
+          else goto (setev s r (c <| wakers := WTask a :: c.(wakers) |>)) YPpend st u   (* the only poller of this receiver is the owner task *)
+      | YFuture _ => goto s YPuser st u                (* not reached *)
+      end
+  | YPuser =>                                         (* future.poll_unpin: one primitive of the user future per step *)
+      match st with
+      | YFuture [] => goto (addlog s [GUFinish o]) YPfin st u
+      | YFuture (PAwait e :: b) =>
+          let c := getev s e in
+          if c.(fired) then goto (addlog s [GUStep o]) YPuser (YFuture b) u
+          else goto (setev s e (c <| wakers := WTask a :: c.(wakers) |>)) YPpend st u
+      | YFuture (PAwaitEither e1 e2 :: b) =>
+          if (getev s e1).(fired) || (getev s e2).(fired) then goto (addlog s [GUStep o]) YPuser (YFuture b) u
+          else let s1 := setev s e1 (getev s e1 <| wakers := WTask a :: (getev s e1).(wakers) |>) in
+               goto (setev s1 e2 (getev s1 e2 <| wakers := WTask a :: (getev s1 e2).(wakers) |>)) YPpend st u
+      | YFuture (_ :: b) => goto (addlog s [GUStep o]) YPuser (YFuture b) u
+      | YQueue _ => goto s YPloop st u                 (* not reached *)
+      end
+  | YPfin =>                                          (* [ev d] task_finished.take().map(send); state WaitingForScheduler, retry: from now on the
+                                                         SyncFuture is polled / dropped exactly like its SchedulerFuture (poll = its poll, the drop of
+                                                         the remaining fields does nothing): the owner goes on with [FUse f u] *)
+      Some (fire_cell s a d (FUse y.(y_f) u :: rest))
+  | YPdrop1 =>                                        (* drop of the field `state`: the receiver / the user future *)
+      match st with
+      | YQueue _ => goto (setev s r (getev s r <| wakers := List.filter (fun w => negb (is_task a w)) (getev s r).(wakers) |>)) YPdrop2 st u   (* the receiver's waker is discarded *)
+      | YFuture _ => goto (addlog s [GUCancel o]) YPdrop2 st u
+      end
+  | YPdrop2 =>                                        (* (scheduler_future: its Drop is empty) drop of `task_finished`: done_recv resolves Canceled *)
+      Some (fire_cell (addlog s [GYdrop o]) a d rest)
+  end.
+
 (* ---------- caller top level, schedule_job_desync, uses of a returned future, fire ---------- *)
 Definition step_caller (T : ftables) (s : state) (a : nat) (tok : bool) (rest : list frame) (fr : frame) : option state :=
   let goto s' f := Some (setstack s' a (f :: rest)) in
@@ -415,6 +514,11 @@ Definition step_caller (T : ftables) (s : state) (a : nat) (tok : bool) (rest : 
       | OSuspend e u =>      (* f = finished_suspending, S f = the detached outer future of the suspend job *)
           let s2 := s1 <| futs := s.(futs) ++ [fc0; fc0] |> in
           Some (setstack s2 a (FD1 (JFut op NotCreated ([PSignal f; PAwait e] ++ [PSignal (S f)])) :: FUse f u :: FTop os :: rest))
+      | OFutSync body u =>   (* two oneshot channels, the SchedulerFuture, the slot job queued by schedule_job_desync, the SyncFuture *)
+          let r := length s.(evs) in
+          let s2 := addlog (s1 <| futs := s.(futs) ++ [fc0] |> <| evs := s.(evs) ++ [ev_new; ev_new] |>) [GYnew op f r] in
+          let y := {| y_op := op; y_f := f; y_r := r |} in
+          Some (setstack s2 a (FD1 (JFut op NotCreated [PSendReady r; PAwaitDone (S r); PSignal f]) :: FY YPuse y (YQueue body) u :: FTop os :: rest))
       | OSync => Some (setstack s1 a (FS1 op None :: FTop os :: rest))
       | OFire e => Some (setstack s a (FFire e :: FTop os :: rest))
       end
@@ -450,6 +554,7 @@ Definition step_caller (T : ftables) (s : state) (a : nat) (tok : bool) (rest : 
       Some (setstack (setev s e {| fired := true; wakers := [] |}) a (wake_frames (rev c.(wakers)) ++ rest))
   | FUnpark c => Some (setstack (settoken s c true) a rest)
   | FDQlate j => Some (setstack s a rest)   (* never pushed with the code's facts (only by [stepF], which overrides this step) *)
+  | FY pc y st u => step_y s a tok rest pc y st u
   | _ => None
   end.
 
@@ -486,7 +591,12 @@ Definition frame_label (fr : frame) : lockclass * nat :=
   | FClosure _ (Some f) | FJob (JSync _ _ (Some f)) _ _ | FJob (JFut _ Waiting (PSignal f :: _)) _ _ => (LFres, f)
   | FWakeWith d _ | FWake (WDrain d) => (LDw, d)
   | FWake (WDouble k) => (LDbl, k)
-  | FFire e | FJob (JFut _ Waiting (PAwait e :: _)) _ _ | FJob (JFut _ Waiting (PAwaitEither e _ :: _)) _ _ => (LEv, e)
+  | FFire e | FJob (JFut _ Waiting (PAwait e :: _)) _ _ | FJob (JFut _ Waiting (PAwaitEither e _ :: _)) _ _
+  | FJob (JFut _ Waiting (PSendReady e :: _)) _ _ | FJob (JFut _ Waiting (PAwaitDone e :: _)) _ _ => (LEv, e)
+  | FY YPrecv y _ _ => (LEv, y.(y_r))
+  | FY YPfin y _ _ | FY YPdrop2 y _ _ => (LEv, S y.(y_r))
+  | FY YPdrop1 y (YQueue _) _ => (LEv, y.(y_r))
+  | FY YPuser _ (YFuture (PAwait e :: _)) _ | FY YPuser _ (YFuture (PAwaitEither e _ :: _)) _ => (LEv, e)
   | _ => (LNone, 0)
   end.
 Definition step_label (s : state) (a : nat) : option (lockclass * nat) :=
@@ -518,7 +628,7 @@ Definition would_panic (T : ftables) (s : state) (a : nat) : bool :=
   end.
 
 (* ==================================================================================================================================
-   ORDER FACTS.  Four hand-written order decisions of [step] as a parameter: [stepF F T] is [step T] when every fact of F is true
+   ORDER FACTS.  Five hand-written order decisions of [step] as a parameter: [stepF F T] is [step T] when every fact of F is true
    ([code_ffacts]; L2/Facts.v proves stepF code_ffacts T = step T, so every theorem about [run T] is a theorem about
    [runF code_ffacts T]), and the variant order when a fact is false (L2/Refute.v: with the fact false the property fails).
      f_park_before_wake_with       drain_queue's Pending arm writes the parked state (WaitingForWake / WaitingForPoll self.id)
@@ -530,11 +640,15 @@ Definition would_panic (T : ftables) (s : state) (a : nat) : bool :=
                                    poll left the queue in WaitingForPoll(self.id) (not cleared when a pool thread takes the queue
                                    over): the drop after such a last poll is the frame [FDQidle f]
      f_wake_thread_unparks_always  WakeThread::wake unparks its thread whatever state it found
-                                   variant: unpark only when it found WaitingForUnpark *)
+                                   variant: unpark only when it found WaitingForUnpark
+     f_syncfuture_state_dropped_first  struct SyncFuture declares `state` (the user future) before `task_finished`: a dropped
+                                   SyncFuture destroys its user future BEFORE the slot job is released
+                                   variant: task_finished dropped first, then the state *)
 Record ffacts := { f_park_before_wake_with : bool; f_requeue_before_park : bool; f_future_drop_inert : bool;
-                   f_wake_thread_unparks_always : bool }.
+                   f_wake_thread_unparks_always : bool; f_syncfuture_state_dropped_first : bool }.
 Definition code_ffacts : ffacts :=
-  {| f_park_before_wake_with := true; f_requeue_before_park := true; f_future_drop_inert := true; f_wake_thread_unparks_always := true |}.
+  {| f_park_before_wake_with := true; f_requeue_before_park := true; f_future_drop_inert := true; f_wake_thread_unparks_always := true;
+     f_syncfuture_state_dropped_first := true |}.
 
 (* variant f_requeue_before_park = false: the continuation frame of the poll lies below the late requeue *)
 Definition pop_contF (rest : list frame) : list frame :=
@@ -584,6 +698,15 @@ Definition stepF (F : ffacts) (T : ftables) (s : state) (a : nat) : option state
                   Some (setstack (s <| qs := WaitingForPoll f |> <| dbl := s.(dbl) ++ [Some (WQueue, WTask a)] |>) a
                           (FWakeWith d (WDouble k) :: rest'))
              else Some (setstack (s <| qs := WaitingForPoll f |>) a rest')
+    | FY YPdrop1 y st u :: rest =>
+        if F.(f_syncfuture_state_dropped_first) then step T s a
+        else Some (fire_cell s a (S y.(y_r)) (FY YPdrop2 y st u :: rest))
+    | FY YPdrop2 y st u :: rest =>
+        if F.(f_syncfuture_state_dropped_first) then step T s a
+        else match st with
+             | YQueue _ => Some (setstack (addlog (setev s y.(y_r) (getev s y.(y_r) <| wakers := List.filter (fun w => negb (is_task a w)) (getev s y.(y_r)).(wakers) |>)) [GYdrop y.(y_op)]) a rest)
+             | YFuture _ => Some (setstack (addlog s [GYdrop y.(y_op); GUCancel y.(y_op)]) a rest)
+             end
     | _ => step T s a
     end
   end.
